@@ -117,9 +117,9 @@ func Main(args []string) {
 	col := newCollector()
 	start := time.Now()
 
-	realPops := 4
+	realPops, engMax := 8, 4
 	if tier == "thorough" {
-		realPops = 24
+		realPops, engMax = 32, 5
 	}
 
 	outcomes := map[string]int{}
@@ -149,7 +149,7 @@ func Main(args []string) {
 		fmt.Fprintf(os.Stderr, "== C13 part %s: inputs=%d calls=%d (%.1fs)\n", name, r.Inputs, r.Calls, time.Since(t0).Seconds())
 	}
 	run("a", func() partResult { return partA(col) })
-	run("b", func() partResult { return partB(col, scratch) })
+	run("b", func() partResult { return partB(col, scratch, engMax) })
 	run("c", func() partResult { return partC(col, scratch, seed, realPops) })
 
 	col.flush(rep)
@@ -175,7 +175,7 @@ func Main(args []string) {
 	ev := evidence.Evidence{PropertyID: "C13", Tier: tier, Seed: int(seed), Level: "model_checking", Coverage: cov,
 		Assumptions: []string{
 			"(a) CombineIds/SeparateIds depend on character positions only, so ids whose characters encode their position decide them for all id values (hex and degenerate ids are run as well)",
-			"(b) engineered excerpts are planted through the cache file (gob of the exported excerpt types) and the index of a real repository; the cache is checked to have loaded exactly the planted population without rebuilding; ids are {a,b}^4 padded with '0' to 64 characters, at most 4 per population",
+			"(b) engineered excerpts are planted through the cache file (gob of the exported excerpt types) and the index of a real repository; the cache is checked to have loaded exactly the planted population without rebuilding; ids are {a,b}^4 padded with '0' to 64 characters, at most 4 per population (thorough: 5)",
 			"(c) reduced space: real populations of 6 bugs (three sharing 3 leading hex characters, one sharing 2, one sharing 1, one sharing none) with 1..3 comments and 3 identities (sharing 2 and 1 leading characters), found by mining with the deterministic nonce seam; thorough runs more such populations",
 			"for a prefix matched by several comments the statement does not fix the outcome: any error is accepted, a success only if the returned comment has the prefix",
 			"the error type for an unknown comment is not fixed by the statement (any error accepted)",
